@@ -1,4 +1,8 @@
 import LunaVerif.Lemmas.C46Ghost
+/-!
+# C46 — the invariant is preserved in WAIT_FOR_DATA, REQUEST_IN_TOKEN and WAIT_TO_SEND
+(one lemma per FSM state, one `vcontrol = {…}` equation per branch; includes the ZLP strobed from WAIT_TO_SEND)
+-/
 namespace LunaVerif.SSStreamIn
 
 /-- bytes accepted from the producer in this cycle -/
@@ -12,16 +16,17 @@ theorem gnext_quiet (i : In) (o : Out) (d : Bool) (g : Ghost) (h1 : o.txValid = 
     gnext i o d g = gProd i o g := by
   simp [gnext, gZlp, gTx, h1, h2]
 
-theorem memRead_lt (c : Config) (m : List Nat) (a : Nat) (h : a < 2 ^ c.aw) : memRead c m a = m.getD a 0 := by
+theorem memRead_lt (c : Config) (m : List Nat) (a : Nat) (h : a < 2 ^ c.aw) :
+    memRead c m a = m[a]?.getD 0 := by
   simp [memRead, Nat.mod_eq_of_lt h]
 
 theorem step_waitData (c : Config) (v : View) (g : Ghost) (i : In) (d : Bool) (hc : CfgOK c)
     (hI : Inv c v g) (he : EnvOK c g i (vout c v i)) (hf : v.fsm = .waitData) :
     Inv c (vnext c v i) (gnext i (vout c v i) d g) := by
   obtain ⟨hr, hp, hh⟩ := he
-  obtain ⟨wl, wle, wal, wdat⟩ := write_side c v i hc hI.lenW hI.fillW_le hI.fillW_al hp
+  obtain ⟨wl, wle, wal, wend, wen1, wdat⟩ := write_side c v i hc hI.lenW hI.fillW_le hI.fillW_al hI.endW hp
   change _ = _ ++ wbytes c v i at wdat
-  obtain ⟨seqlt, lenW, lenR, fillW_le, fillW_al, fillR_le, wd, idle, snd, wa, hs, cur0, curq, hdat⟩ := hI
+  obtain ⟨seqlt, lenW, lenR, fillW_le, fillW_al, endW, fillR_le, wd, idle, snd, wa, hs, cur0, curq, hdat⟩ := hI
   obtain ⟨hsp, htv, hhs⟩ := idle (Or.inl hf)
   have hfr := wd hf
   obtain ⟨hip, hcb⟩ := cur0 htv
@@ -39,13 +44,14 @@ theorem step_waitData (c : Config) (v : View) (g : Ghost) (i : In) (d : Bool) (h
   cases ends
   · -- stays in WAIT_FOR_DATA
     constructor <;> simp only [vnext, hk] <;> simp [*]
-    · exact wal
-    · rw [← hdat]; simp
+    case fillW_al => exact wal
+    case endW => exact wend
+    case data => rw [← hdat]; simp
   · constructor <;> simp only [vnext, hk] <;> simp [*]
-    · split <;> simp
-    · split <;> simp
-    · split <;> simp
-    · rw [← hdat]; simp
+    case wd => split <;> simp
+    case snd => split <;> simp
+    case wa => split <;> simp
+    case data => rw [← hdat]; simp
 
 theorem gnext_txidle (i : In) (o : Out) (d : Bool) (g : Ghost) (h1 : o.txValid = 0) :
     gnext i o d g = gZlp o d (gProd i o g) := by
@@ -55,9 +61,9 @@ theorem step_reqIn (c : Config) (v : View) (g : Ghost) (i : In) (d : Bool) (hc :
     (hI : Inv c v g) (he : EnvOK c g i (vout c v i)) (hf : v.fsm = .reqIn) :
     Inv c (vnext c v i) (gnext i (vout c v i) d g) := by
   obtain ⟨hr, hp, hh⟩ := he
-  obtain ⟨wl, wle, wal, wdat⟩ := write_side c v i hc hI.lenW hI.fillW_le hI.fillW_al hp
+  obtain ⟨wl, wle, wal, wend, wen1, wdat⟩ := write_side c v i hc hI.lenW hI.fillW_le hI.fillW_al hI.endW hp
   change _ = _ ++ wbytes c v i at wdat
-  obtain ⟨seqlt, lenW, lenR, fillW_le, fillW_al, fillR_le, wd, idle, snd, wa, hs, cur0, curq, hdat⟩ := hI
+  obtain ⟨seqlt, lenW, lenR, fillW_le, fillW_al, endW, fillR_le, wd, idle, snd, wa, hs, cur0, curq, hdat⟩ := hI
   obtain ⟨hsp, htv, hhs⟩ := idle (Or.inr (Or.inl hf))
   obtain ⟨hip, hcb⟩ := cur0 htv
   have hk : vcontrol c v i =
@@ -69,6 +75,7 @@ theorem step_reqIn (c : Config) (v : View) (g : Ghost) (i : In) (d : Bool) (hc :
   simp only [hhs, if_true] at hdat
   constructor <;> simp only [vnext, hk] <;> simp [*]
   case fillW_al => exact wal
+  case endW => exact wend
   case wd => split <;> simp
   case snd => split <;> simp
   case wa => split <;> simp
@@ -78,9 +85,9 @@ theorem step_waitSend (c : Config) (v : View) (g : Ghost) (i : In) (d : Bool) (h
     (hI : Inv c v g) (he : EnvOK c g i (vout c v i)) (hf : v.fsm = .waitSend) :
     Inv c (vnext c v i) (gnext i (vout c v i) d g) := by
   obtain ⟨hr, hp, hh⟩ := he
-  obtain ⟨wl, wle, wal, wdat⟩ := write_side c v i hc hI.lenW hI.fillW_le hI.fillW_al hp
+  obtain ⟨wl, wle, wal, wend, wen1, wdat⟩ := write_side c v i hc hI.lenW hI.fillW_le hI.fillW_al hI.endW hp
   change _ = _ ++ wbytes c v i at wdat
-  obtain ⟨seqlt, lenW, lenR, fillW_le, fillW_al, fillR_le, wd, idle, snd, wa, hs, cur0, curq, hdat⟩ := hI
+  obtain ⟨seqlt, lenW, lenR, fillW_le, fillW_al, endW, fillR_le, wd, idle, snd, wa, hs, cur0, curq, hdat⟩ := hI
   obtain ⟨hsp, htv, hhs⟩ := idle (Or.inr (Or.inr hf))
   obtain ⟨hip, hcb⟩ := cur0 htv
   rw [gnext_txidle _ _ _ _ htv, gProd_vout]
@@ -91,6 +98,7 @@ theorem step_waitSend (c : Config) (v : View) (g : Ghost) (i : In) (d : Bool) (h
       simp [vcontrol, hf, htok]
     constructor <;> simp only [vnext, vout, hk, gZlp] <;> simp [*]
     case fillW_al => exact wal
+    case endW => exact wend
     case data => rw [← hdat]; simp
   · by_cases hfr : v.fillR = 0
     · have hk : vcontrol c v i =
@@ -98,14 +106,16 @@ theorem step_waitSend (c : Config) (v : View) (g : Ghost) (i : In) (d : Bool) (h
         simp [vcontrol, hf, htok, hfr]
       constructor <;> simp only [vnext, vout, hk, gZlp] <;> simp [*]
       case fillW_al => exact wal
-      case hs => cases d <;> simp [receive, hhs]
-      case cur0 => cases d <;> simp [receive, hhs, hip, hcb]
-      case curq => cases d <;> simp [receive, hhs, hip]
-      case data => cases d <;> simp [receive, hhs] <;> rw [← hdat] <;> simp [hfr]
+      case endW => exact wend
+      case hs => cases d <;> simp [receive]
+      case cur0 => cases d <;> simp [receive]
+      case curq => cases d <;> simp [receive]
+      case data => cases d <;> simp [receive] <;> rw [← hdat] <;> simp [hfr]
     · have hk : vcontrol c v i = { fsm := .send, lpz := some false, raddr := v.sendPos } := by
         simp [vcontrol, hf, htok, hfr]
       constructor <;> simp only [vnext, vout, hk, gZlp] <;> simp [*]
       case fillW_al => exact wal
+      case endW => exact wend
       case snd => exact ⟨by omega, by simp [memRead]⟩
       case data => rw [← hdat]; simp
 
